@@ -129,7 +129,9 @@ func followUp(c Case) Case {
 
 var (
 	annKeys = []string{"a1", "a2", "a3", "a10", "+a"} // "a10": "a1" is a prefix of it; "+a": first byte sorts below the dash
-	envKeys = []string{"E1", "E2", "E3", "E10"}
+	// (the last two are names that look like credentials: code that treats variables by what
+	// their name suggests shows there)
+	envKeys = []string{"E1", "E2", "E3", "E10", "DB_PASSWORD", "REGISTRY_API_TOKEN"}
 	// keys that themselves begin with a dash: legal for items of the original container and
 	// for removals ("--a1" marks "-a1"); they cannot be SET through an adjustment (a set of
 	// "-a1" is the removal of "a1"), so they only occur in the original and in lone removals
